@@ -541,8 +541,8 @@ PROPS = {
         "assumptions": ["pruning slices sorted by key (what filter_kmers + sort deliver)"],
     },
     "C09": {
-        "lean_modules": ["Dbg.Props.C09", "Dbg.Props.C09b", "Dbg.Props.C09c", "Dbg.Props.C09d"],
-        "theorems": ["Graph.C09_findBadNodes", "CompressGraph.C09_idempotent", "CompressGraph.C09_result_wellformed", "Compress.pgraph_compressGraph", "Compress.pgraph_recompress_idem", "CompressGraph.C09_recompress_eq_direct", "CompressGraph.C09_char", "CompressGraph.C09_char_of_built", "CompressGraph.rinv_fixExts", "CompressGraph.glinkV_sym", "CompressGraph.extendNode_refines", "CompressGraph.static_ok", "CompressGraph.palEnd_of_compress", "CompressGraph.C09_kmers_cover", "CompressGraph.C09_no_dangling", "CompressGraph.buildNode_kmers", "CompressGraph.buildNode_payload", "CompressGraph.fixExts_exact", "CompressGraph.extendNode_chain", "CompressGraph.C09_censored_excluded", "CompressGraph.extendNode_ok", "CompressGraph.buildNode_ok", "CompressGraph.compressLoop_ok"],
+        "lean_modules": ["Dbg.Props.C09", "Dbg.Props.C09b", "Dbg.Props.C09c", "Dbg.Props.C09d", "Dbg.Props.C09e"],
+        "theorems": ["CompressGraph.C09_is_compressed_after_recompress", "Compress.PGraph.isCompressed_none", "Graph.C09_findBadNodes", "CompressGraph.C09_idempotent", "CompressGraph.C09_result_wellformed", "Compress.pgraph_compressGraph", "Compress.pgraph_recompress_idem", "CompressGraph.C09_recompress_eq_direct", "CompressGraph.C09_char", "CompressGraph.C09_char_of_built", "CompressGraph.rinv_fixExts", "CompressGraph.glinkV_sym", "CompressGraph.extendNode_refines", "CompressGraph.static_ok", "CompressGraph.palEnd_of_compress", "CompressGraph.C09_kmers_cover", "CompressGraph.C09_no_dangling", "CompressGraph.buildNode_kmers", "CompressGraph.buildNode_payload", "CompressGraph.fixExts_exact", "CompressGraph.extendNode_chain", "CompressGraph.C09_censored_excluded", "CompressGraph.extendNode_ok", "CompressGraph.buildNode_ok", "CompressGraph.compressLoop_ok"],
         "partial": [],
         "n_quick": 2500, "n_thorough": 150000,
         "nontrivial": lambda toks, impl: impl not in ("panic", "-") and toks[8].count(",") >= 2, "tags": _c09_tags,
